@@ -33,7 +33,9 @@ class CycleNode(Node):
         super().__init__(token)
         self.name = name
         self.items = tuple(items)
-        self.cycle_hash = hash((self.name, self.items))
+        # Not `hash()` of it: groups with different items can have the same hash,
+        # `-1, 0` and `-2, 0` or `1, 2` and `1.0, 2.0` for example.
+        self.cycle_hash = (self.name, self.items)
         self.blank = False
 
     def __str__(self) -> str:
